@@ -390,6 +390,8 @@ func bulkTransfer(conn net.Conn, isDialer bool) bool {
 	return bytes.Equal(got, theirs)
 }
 
+func newRPC(conn net.Conn) *rpc.Client { return rpc.NewClient(conn) }
+
 func pairToken(a, b int) int {
 	if a > b {
 		a, b = b, a
